@@ -4,6 +4,7 @@ CONSTANTS
   PadRule = "rfc"
   GuardZeroRec = FALSE
   Setups <- SetupsQ
+  MaxSetup = 1
   EmitCases = FALSE
 INVARIANTS Safe Emit
 CHECK_DEADLOCK FALSE
